@@ -681,7 +681,18 @@ func (g *hGen) mutate() {
 			g.asked = append(g.asked, q)
 			g.steps = append(g.steps, q)
 		}
-		g.add(delOp(), g.obj("Pod", p))
+		if r.chance(1, 2) {
+			// not deleted but orphaned (its controller went away with --cascade=orphan): the same pod, in place,
+			// without an owner; adopted again below by a controller of the same name with the next ports
+			orphan := p.DeepCopy()
+			orphan.OwnerReferences = nil
+			g.add("insert", g.obj("Pod", orphan))
+			if r.chance(1, 2) {
+				g.queries(r.between(1, 3))
+			}
+		} else {
+			g.add(delOp(), g.obj("Pod", p))
+		}
 		g.epoch[ok]++
 		np := p.DeepCopy()
 		np.Spec.Containers[0].Ports = ownerPorts(ok, p.Labels, g.epoch[ok])
